@@ -11,8 +11,8 @@ CASE_IMPORTS = "From GV Require Import Prelude.Base Model.Merge."
 ALLOWED_AXIOMS: list = []
 REFUTED = ["C16_old_code_refuted (the pre-repair transcription; the repaired code is what Model/Merge.v follows)"]
 PARTIAL = ["C16_cells_partial (the code meets the cell specification when every input but the last has its last vertex referenced)",
-           "C16_merged_data (values at the right offsets, proved for all input lists; 'no-data where an input lacks the data set' and "
-           "'inputs unchanged' are checked by correspondence and oracle only: the model is purely functional)"]
+           "C16_merged_data + C16_merged_data_blank_elsewhere (values at the right offsets and no-data where an input lacks the data set, for all "
+           "input lists with distinct labels per input; 'inputs unchanged' is checked by correspondence and oracle only: the model is purely functional)"]
 LEVEL_TEXT = ("Coq theorems over ALL lists of inputs (any sizes, cells, data): merged vertices are the inputs' vertices in order; the cell "
               "specification joins the same coordinates (C16_spec_*); the code's offset rule equals the specification iff tails are referenced "
               "(C16_cells_partial) and the full statement is refuted with a witness (C16_cells_refuted = open known finding); merged data sit at "
